@@ -192,6 +192,26 @@ def campaign(c):
         else:
             c.violation('time:jump-shift', 'jump sweep in %s failed: %s' % (unit, impl['outcome'][:3]), dict(src=src.decode()[:2000]))
         c.case(('jump-sweep', unit), dict(kind='jump-sweep', unit=unit, values=len(ds)))
+    # a stored jump executed several times (adjacent and with packets in between, through a second name too): every execution
+    # moves the clock by d
+    for unit, mul in (('seconds', 10 ** 9), ('millis', 10 ** 6), ('micros', 10 ** 3), ('nanos', 1)):
+        r = c.rng.fork('rejump-' + unit)
+        dd = 1 + r.below(5000)
+        Bf = (14 + 24) * 8
+        fr = 'eth::frame("|000000000001|", "|000000000002|");'
+        seq = ['F', 'J', 'F', 'J', 'J', 'F', 'K', 'F', 'J', 'K', 'F']
+        lines = ['import time;', 'import eth;', 'let j = time::jump_%s(%d);' % (unit, dd), 'let k = j;'] + [{'F': fr, 'J': 'j;', 'K': 'k;'}[x] for x in seq]
+        want, t = [], 0
+        for x in seq:
+            if x == 'F': t += Bf; want.append(t)
+            else: t += dd * mul
+        src = ('\n'.join(lines) + '\n').encode()
+        impl, model = progdiff.run_both(c, src)
+        progdiff.compare(c, src, impl, model, 'stored-jump-reuse', project=lambda fb: len(fb).to_bytes(4, 'big'))
+        T = times_of(c, impl['file'], dict(src=src.decode())) if impl['outcome'][0] == 'success' else None
+        if T != want:
+            c.violation('time:jump-shift', 'a stored time::jump_%s(%d) executed several times does not move the clock by d each time: %s, expected %s' % (unit, dd, T, want), dict(src=src.decode()))
+        c.case(('stored-jump-reuse', unit), dict(kind='stored-jump-reuse', unit=unit))
     # statements that emit no packet (and are not time jumps) add nothing: every library function and method whose result is not a
     # packet, a packet sequence or a time jump, called between two frames as a statement and as a let - the second frame comes
     # exactly one frame time after the first
